@@ -97,3 +97,56 @@ def total_flows(net):
     if has(net, "source"):
         inj += float(np.nansum(net.res_source.mdot_kg_per_s.values))
     return feed, cons, inj
+
+
+def res_tables(net):
+    return sorted(k for k in net.keys() if k.startswith("res_") and hasattr(net[k], "columns") and len(net[k]))
+
+
+def compare_results(net_a, net_b, atol=1e-10, rtol=1e-9, index_map=None, skip_cols=()):
+    """compare all result tables of two nets element by element; returns list of differences
+    (table, column, index, a, b).  NaN must match NaN.  index_map: table -> {index_a: index_b}."""
+    diffs = []
+    for t in res_tables(net_a):
+        if t not in net_b or len(net_b[t]) != len(net_a[t]):
+            diffs.append((t, "<shape>", None, len(net_a[t]), len(net_b[t]) if t in net_b else None))
+            continue
+        a, b = net_a[t], net_b[t]
+        im = (index_map or {}).get(t[4:])
+        for col in a.columns:
+            if col in skip_cols or col not in b.columns:
+                continue
+            va = a[col].values.astype(float)
+            vb = (b[col].reindex([im[i] for i in a.index]).values if im is not None else b[col].reindex(a.index).values).astype(float)
+            nan_a, nan_b = np.isnan(va), np.isnan(vb)
+            bad = (nan_a != nan_b) | (~nan_a & ~nan_b & (np.abs(va - vb) > atol + rtol * np.maximum(np.abs(va), np.abs(vb))))
+            for k in np.flatnonzero(bad)[:2]:
+                diffs.append((t, col, int(a.index[k]), float(va[k]), float(vb[k])))
+    return diffs
+
+
+TIGHT = {"tol_p": 1e-9, "tol_m": 1e-9, "tol_T": 1e-7, "tol_res": 1e-7, "max_iter_hyd": 150, "max_iter_therm": 150,
+         "max_iter_bidirect": 150}
+
+
+def degenerate(net, eps=1e-7):
+    """results sit on a discontinuity of a component characteristic, where round-off decides the branch:
+    a pump / compressor with (numerically) zero flow (lift jumps between curve(0) and 0)."""
+    for tbl in ("pump", "compressor"):
+        if has(net, tbl):
+            m = net["res_" + tbl].mdot_from_kg_per_s.values
+            if np.any(~np.isnan(m) & (np.abs(m) < eps)):
+                return True
+    return False
+
+
+def mask_zero_flow_friction(net_a, net_b, eps=1e-4):
+    """lambda / reynolds of a pipe without flow are 0/0-type quantities: blank them in both nets"""
+    for net in (net_a, net_b):
+        for tbl in ("pipe", "valve", "heat_exchanger"):
+            if has(net, tbl):
+                r = net["res_" + tbl]
+                z = np.abs(r.mdot_from_kg_per_s.values) < eps
+                for c in ("lambda", "reynolds"):
+                    if c in r.columns:
+                        r.loc[r.index[z], c] = np.nan
